@@ -32,6 +32,8 @@ func init() {
 			ruleStructEquality(r, "internal/logql/logqlengine/jsonexpr", "Path", "Equal")
 			ruleSetErrorFirstWins(r)
 			ruleSanitiserSites(r)
+			ruleParserAttempts(r, []string{"JSONExtractor", "LogfmtExtractor", "UnpackExtractor", "RegexpExtractor", "PatternExtractor"})
+			ruleUnpackValidationScope(r)
 		},
 	})
 }
